@@ -108,6 +108,12 @@ def run_case(ck, desc):
             pl = float(gas.density_DAK(T, p_low, Tpc, ppc, sg)) * float(gas.b_factor_DAK(T, p_low, Tpc, ppc))
             if not ck.margin("rho*Bg-independent-of-p (at / below standard pressure)", abs(pl / prod.mean() - 1), 1e-12):
                 ck.violation("rho*Bg-independent-of-p", {"p": p_low, "rho*Bg": pl, "elsewhere": prod.mean()}, desc)
+    # typed scalars: integer and float32 pressures must give the same product
+    for p_typed in (np.int64(round(ps[3])), int(round(ps[6])), np.float32(ps[8])):
+        pl = float(gas.density_DAK(T, p_typed, Tpc, ppc, sg)) * float(gas.b_factor_DAK(T, p_typed, Tpc, ppc))
+        tolp = 1e-12 if not isinstance(p_typed, np.floating) else 1e-6
+        if not ck.margin("rho*Bg-independent-of-p (typed scalars)", abs(pl / prod.mean() - 1) / tolp, 1.0):
+            ck.violation("rho*Bg-independent-of-p", {"p": float(p_typed), "typed_as": type(p_typed).__name__, "rho*Bg": pl, "elsewhere": prod.mean()}, desc)
     want = 28.9647 * sg * 14.7 / (10.7316 * (60 + 459.67) * 5.615)
     if not ck.margin("rho*Bg=standard-gas-mass", abs(prod.mean() / want - 1), 2e-4):
         ck.violation("rho*Bg=standard-gas-mass", {"got": prod.mean(), "want": want}, desc)
